@@ -185,7 +185,7 @@ theorem sqRes_eq {K : Type} [Field K] {m n : Nat} (A : Mat K m n) (b f : Vec K m
 /-- the part of `estData` that reads the data: only the arrays, never the counts -/
 def estArr {K : Type} [Add K] [Mul K] [Sub K] [Zero K] {m n : Nat} (Ad : Mat K n m) (b : Vec K m)
     (arrs : List (List K)) : Except Err (Vec K n) := do
-  let flat ← vstackFlatten arrs
+  let flat ← concatArrays arrs
   let f ← toDataVec m flat
   pure (estOne Ad b f)
 
